@@ -18,6 +18,7 @@ import (
 	"time"
 
 	"github.com/bytom/bytom/consensus"
+	"github.com/bytom/bytom/protocol/state"
 )
 
 // genCaseFlipVsBlock: a verification message that flips the fork choice to a shorter branch is
@@ -97,8 +98,11 @@ func genCaseCachedVotes(c *Ctx) {
 			n.processBlock(nc.nm.blocks[name])
 			nc.delivered[name] = true
 		}
+		// odd attempts: the parked messages are FORGED (right validator key, wrong signature):
+		// the replay must verify them like any other verification message
+		forged := attempt%2 == 1
 		for v := 0; v < 3; v++ {
-			n.chain.ProcessBlockVerification(nc.env.voteMsg(v, nc.nm.blocks["b0"].Hash(), nc.nm.blocks[c2].Hash(), true))
+			n.chain.ProcessBlockVerification(nc.env.voteMsg(v, nc.nm.blocks["b0"].Hash(), nc.nm.blocks[c2].Hash(), !forged))
 		}
 		done := make(chan struct{})
 		go func() {
@@ -116,11 +120,19 @@ func genCaseCachedVotes(c *Ctx) {
 			n.quiesce()
 			time.Sleep(5 * time.Millisecond)
 			n.quiesce()
+			if forged {
+				for _, t := range n.chain.VerifNodeCasper().VerifNodeTree() {
+					if t.Hash == nc.nm.blocks[c2].Hash() && (t.Status == state.Justified || t.Status == state.Finalized || len(t.SupLinks) > 0) {
+						c.Fail("C37:cached-vote-path:forged-vote-counted", fmt.Sprintf("three verification messages for %s with forged signatures were parked before the block arrived; after the replay the checkpoint has status %v and %d sup link(s) (C17 on the cached-message path)", c2, t.Status, len(t.SupLinks)))
+					}
+				}
+				c.Count("cached-forged-vote-attempts")
+			}
 			if bh, fc := n.chain.BestBlockHeader().Hash(), n.chain.VerifNodeCasper().BestChain(); bh != fc {
 				c.Fail("C37:cached-vote-no-rollback", fmt.Sprintf("cached verification messages for %s replayed after its child %s was processed: node idle, best block %s but the fork choice is %s", c2, c3, nc.nm.name(bh), nc.nm.name(fc)))
 			}
 			c.Count("cached-vote-attempts")
-			if n.chain.VerifNodeCasper().BestChain() == nc.nm.blocks[c3].Hash() {
+			if !forged && n.chain.VerifNodeCasper().BestChain() == nc.nm.blocks[c3].Hash() {
 				c.Count("cached-vote-replay-justified-the-target")
 			}
 		}
